@@ -1,6 +1,6 @@
 ------------------------------ MODULE GroupEnv ------------------------------
 (* The environment of xsync.Group as the bubble harness drives it (C17): up to NF functions are registered through
-   Do / Periodic / Trigger / PeriodicOrTrigger (interval 10 ms, no jitter; a function either holds until the harness
+   Do / Periodic / Trigger / PeriodicOrTrigger (interval 10 ms, jitter 0 or -4 ms - a negative jitter means the same as a positive one; a function either holds until the harness
    releases it - ignoring its context - or returns at once), trigger functions are called, fake time advances,
    holding functions are released, Stop is called, the parent context is cancelled, StopAndWait is called (up to twice, the second call possibly while the first still waits;
    the run goes on afterwards: late registrations and triggers must have no effect). Every behaviour up to MaxLen
@@ -11,9 +11,11 @@ VARIABLES kinds, sw, len, op
 vars == <<kinds, sw, len, op>>
 Kinds == {"do", "per", "trig", "ptrig"}
 NK == Len(kinds)
-R(a, k, kind, hold, d) == op' = [a |-> a, k |-> k, kind |-> kind, iv |-> 10, jit |-> 0, d |-> d, hold |-> hold] /\ len' = len + 1
+RJ(a, k, kind, hold, d, j) == op' = [a |-> a, k |-> k, kind |-> kind, iv |-> 10, jit |-> j, d |-> d, hold |-> hold] /\ len' = len + 1
+R(a, k, kind, hold, d) == RJ(a, k, kind, hold, d, 0)
 Init == kinds = <<>> /\ sw = 0 /\ len = 0 /\ op = [a |-> "init", k |-> 0, kind |-> "", iv |-> 0, jit |-> 0, d |-> 0, hold |-> FALSE]
-Reg(kind, hold) == NK < NF /\ kinds' = Append(kinds, kind) /\ UNCHANGED sw /\ R("reg", NK + 1, kind, hold, 0)
+Reg(kind, hold) == /\ NK < NF /\ kinds' = Append(kinds, kind) /\ UNCHANGED sw
+                   /\ \E j \in (IF kind \in {"per", "ptrig"} THEN {0, -4} ELSE {0}) : RJ("reg", NK + 1, kind, hold, 0, j)
 Fire(k) == k \in 1..NK /\ kinds[k] \in {"trig", "ptrig"} /\ UNCHANGED <<kinds, sw>> /\ R("fire", k, "", FALSE, 0)
 Adv(d) == UNCHANGED <<kinds, sw>> /\ R("adv", 0, "", FALSE, d)
 Rel(k) == k \in 1..NK /\ UNCHANGED <<kinds, sw>> /\ R("rel", k, "", FALSE, 0)
